@@ -102,7 +102,7 @@ impl DerivedTS {
                 #generics_fn
                 #output_path_fn
 
-                fn visit_dependencies(v: &mut impl #crate_rename::TypeVisitor)
+                fn visit_dependencies(__ts_rs_visitor: &mut impl #crate_rename::TypeVisitor)
                 where
                     Self: 'static,
                 {
@@ -208,12 +208,12 @@ impl DerivedTS {
             .filter(|ty| !self.concrete.contains_key(&ty.ident))
             .map(|TypeParam { ident, .. }| {
                 quote![
-                    v.visit::<#ident>();
-                    <#ident as #crate_rename::TS>::visit_generics(v);
+                    __ts_rs_visitor.visit::<#ident>();
+                    <#ident as #crate_rename::TS>::visit_generics(__ts_rs_visitor);
                 ]
             });
         quote! {
-            fn visit_generics(v: &mut impl #crate_rename::TypeVisitor)
+            fn visit_generics(__ts_rs_visitor: &mut impl #crate_rename::TypeVisitor)
             where
                 Self: 'static,
             {
@@ -299,9 +299,14 @@ impl DerivedTS {
             }
             fn decl() -> String {
                 #generic_types
-                let inline = <#rust_ty<#(#generic_idents,)*> as #crate_rename::TS>::inline();
-                let generics = #ts_generics;
-                format!("type {}{generics} = {inline};", #name)
+                // (no local variables: their names could collide with the placeholder types,
+                // which are named like the type parameters)
+                format!(
+                    "type {}{} = {};",
+                    #name,
+                    #ts_generics,
+                    <#rust_ty<#(#generic_idents,)*> as #crate_rename::TS>::inline()
+                )
             }
         }
     }
